@@ -90,4 +90,22 @@ PROPS = {
             "the C14 oracle is not applied to degenerate configurations (it is stated for the documented domain only)",
         ],
     },
+
+    "C13": {
+        "level": "exploration",
+        "profiles": ["chk"],
+        "death_is_violation": True,
+        "min_evals": {"quick": 20, "thorough": 100},
+        "rule": ("the real muxer writes into a sparse Write+Seek+Read stream (payload writes are verified against their generator while being "
+                 "written and stored as extents). Scenarios place the media-data size at 2^32-1 / 2^32 (+1, -2, far above in thorough), a chunk offset "
+                 "at 2^32-1 / 2^32 / 2^32+1 both by volume and by starting the output at stream position ~2^32, the media-header duration at "
+                 "2^32-1 / 2^32 / 2^32+1, track/movie header durations across 2^32 independently of the media header via timescale ratios, and "
+                 "(thorough) a single chunk > 4 GiB; for every media kind. Outputs are judged by the independent decoder (64-bit form iff needed, no "
+                 "truncated field, versions) and read back completely through the real reader. distinct_nontrivial = distinct scenarios plus "
+                 "distinct (scenario family, boundary side) pairs."),
+        "assumptions": [
+            "a stream that starts at a non-zero position is opened with the reader positioned at that start and the absolute end position as size",
+            "bulk samples are 64 MiB synthetic payloads (16-byte tag + shared filler) so that 4 GiB costs memory bandwidth only",
+        ],
+    },
 }
